@@ -8,9 +8,13 @@ namespace RenoVerif.Trunc
 
 def normSq (σ : List Rat) : Rat := σ.foldr (fun s acc => s * s + acc) 0
 
-/-- `_threshold_m_trunc` -/
-def thresholdM (thr : Rat) (σ : List Rat) : Nat :=
+/-- number of entries strictly above the threshold -/
+def aboveThr (thr : Rat) (σ : List Rat) : Nat :=
   (σ.filter fun s => decide (thr * thr * normSq σ < s * s)).length
+
+/-- `_threshold_m_trunc`: at least one state is kept (a flat spectrum can lie entirely below the
+    threshold; keeping nothing made `compress` fail — defect D10, fixed) -/
+def thresholdM (thr : Rat) (σ : List Rat) : Nat := max (aboveThr thr σ) 1
 
 /-- `_fixed_m_trunc`: `bond_idx = idx + 1 if left else idx` -/
 def fixedM (maxDims : List Nat) (n idx : Nat) (left : Bool) : Option Nat :=
